@@ -1,4 +1,5 @@
 import Req.Lemmas.C01Body
+import Req.Lemmas.C01BodyH3
 /-!
 C01 — request fidelity of the HTTP/2 request body: what `clientStream.writeRequestBody` +
 `awaitFlowControl` put into DATA frames, for EVERY body, every behaviour of the body reader
@@ -124,5 +125,63 @@ example :
       { data := [1, 2, 3], sizes := [2], ending := .eof } [9, 9] = ([], .tooLong) ∧
     originRead (some 4) (frames (writeBody { maxFrame := 4, buf := 5, cl := some 4 }
       { data := [1, 2, 3], sizes := [], ending := .eofWithLast } [9, 9]).1) [] = none := by decide
+
+/-! ## HTTP/3 -/
+
+section H3
+open Req.H3.BodyWrite Req.Lemmas.C01BodyH3
+
+/-- **h3_data_is_body_prefix**: whatever the reader does, the payloads handed to `stream.Write`
+(one DATA frame each) concatenate to a prefix of the body; no `Write` is empty or longer than the
+copy buffer. -/
+theorem h3_data_is_body_prefix (buf : Nat) (r : Reader) :
+    (sendBody buf r).1.flatten <+: r.data ∧ ∀ w ∈ (sendBody buf r).1, w ≠ [] ∧ w.length ≤ buf := by
+  obtain ⟨⟨tail, h, _⟩, hw⟩ := copy_spec buf (fuelFor r) r
+  exact ⟨⟨tail, h⟩, hw⟩
+
+/-- **h3_body_exact**: when the copy ends cleanly (the stream is closed with FIN) the DATA payloads
+are exactly the body, the byte stream `stream.Write` produces exists (every length fits its
+varint), and an origin that follows RFC 9114 §4.1.2 / §7.2.1 — DATA frames parsed with the frame
+parser of C05, content = their payloads, a content-length that differs from the total is malformed
+— reads exactly the body when the declared length is truthful or absent and REJECTS the request
+otherwise (reader shorter or longer than declared). -/
+theorem h3_body_exact (buf : Nat) (hbuf : buf < 2 ^ 62) (cl : Option Nat) (r : Reader)
+    (h : (sendBody buf r).2 = .closed) :
+    (sendBody buf r).1.flatten = r.data ∧
+    ∃ s, wire (sendBody buf r).1 = some s ∧
+      Req.H3.BodyWrite.originRead cl s true =
+        if clMatches cl r.data.length then some r.data else none := by
+  obtain ⟨⟨tail, h1, h2⟩, hw⟩ := copy_spec buf (fuelFor r) r
+  have ht := h2 h
+  subst ht
+  have hflat : (sendBody buf r).1.flatten = r.data := by simpa [sendBody] using h1
+  have hlt : ∀ w ∈ (sendBody buf r).1, w.length < 2 ^ 62 := fun w hw' => by
+    have := (hw w hw').2; omega
+  obtain ⟨s, hs, hl⟩ := wire_some _ hlt
+  refine ⟨hflat, s, hs, ?_⟩
+  unfold Req.H3.BodyWrite.originRead
+  simp only [if_true]
+  rw [originLoop_wire cl _ (s.length + 1) s [] hs hlt (by omega)]
+  simp [hflat]
+
+/-- **h3_reset_not_accepted**: when the reader fails the stream is reset, and the origin never
+takes what arrived before for a request body. -/
+theorem h3_reset_not_accepted (cl : Option Nat) (s : Bytes) :
+    Req.H3.BodyWrite.originRead cl s false = none := by
+  simp [Req.H3.BodyWrite.originRead]
+
+/-- **h3_body_completes**: every reader that ends with `io.EOF` is copied to the end. -/
+theorem h3_body_completes (buf : Nat) (hb : 1 ≤ buf) (r : Reader)
+    (hend : r.ending = .eof ∨ r.ending = .eofWithLast) : (sendBody buf r).2 = .closed :=
+  copy_progress buf hb (fuelFor r) r (by simp [fuelFor]) hend
+
+/-- non-vacuity: 5 bytes read as 2 + 3 into a 4-byte buffer: two DATA frames `00 02 ..`, `00 03 ..`. -/
+example :
+    sendBody 4 { data := [1, 2, 3, 4, 5], sizes := [2], ending := .eof } = ([[1, 2], [3, 4, 5]], .closed) ∧
+    wire [[1, 2], [3, 4, 5]] = some [0, 2, 1, 2, 0, 3, 3, 4, 5] ∧
+    Req.H3.BodyWrite.originRead (some 5) [0, 2, 1, 2, 0, 3, 3, 4, 5] true = some [1, 2, 3, 4, 5] ∧
+    Req.H3.BodyWrite.originRead (some 6) [0, 2, 1, 2, 0, 3, 3, 4, 5] true = none := by decide
+
+end H3
 
 end Req.Props.C01Body
